@@ -21,7 +21,8 @@ for id in $ids; do
   out=$(/verif/check $prop --tier quick -repo $S/repo 2>&1); rc=$?
   t1=$(date +%s)
   if [ $rc -eq 1 ] && echo "$out" | grep -q "^VIOLATION property=$prop"; then
-    echo "$id detected $((t1-t0))s $(echo "$out" | grep -c '^VIOLATION') violation lines"
+    by=$(echo "$out" | grep -A1 '^VIOLATION' | grep '^  ' | sed -E 's/^  ([A-Za-z0-9]+): ([^ ]+).*/\1:\2/; s/^  ([a-z]-[a-z-]+) .*/BMC:\1/' | sort -u | head -6 | tr '\n' ' ')
+    echo "$id detected $((t1-t0))s $(echo "$out" | grep -c '^VIOLATION') violation lines by: $by"
   else
     echo "$id MISSED rc=$rc $((t1-t0))s $(echo "$out" | grep -E 'INCONCLUSIVE|^OK' | head -2 | cut -c1-160 | tr '\n' ' ')"
     missed=1
